@@ -106,10 +106,14 @@ K(m) == CASE m = "sanity" -> 1 [] m = "quick" -> 2 [] m = "thorough" -> 3 [] m =
 Cfg(m) == IF m \in {"sanity", "quick"} THEN "quick" ELSE "thorough"
 
 \* ---------------------------------------------------------------- machine
-Init == c \in {[pkgs |-> P, dir |-> <<>>, bl |-> {}, ex |-> {}, stage |-> 0] : P \in Trees(K(Menu))}
+\* bd: directories WITHOUT a BUILD file that hold a sub-directory named BUILD (with a plain file in it). A package is a
+\* directory that contains a BUILD *file*: Must / May do not mention bd, so such a directory must not be yielded
+\* (and the completion walker must not count it as a package).
+BdMenu(pkgs) == {{}} \cup {{d} : d \in Existing(pkgs) \ pkgs}
+Init == c \in {[pkgs |-> P, dir |-> <<>>, bl |-> {}, ex |-> {}, bd |-> {}, stage |-> 0] : P \in Trees(K(Menu))}
 Next == /\ c.stage = 0
-        /\ \E d \in DirChoices(c.pkgs), b \in BlMenu(Cfg(Menu)), x \in ExMenu(Cfg(Menu)) :
-             c' = [c EXCEPT !.dir = d, !.bl = b, !.ex = x, !.stage = 1]
+        /\ \E d \in DirChoices(c.pkgs), b \in BlMenu(Cfg(Menu)), x \in ExMenu(Cfg(Menu)), g \in BdMenu(c.pkgs) :
+             c' = [c EXCEPT !.dir = d, !.bl = b, !.ex = x, !.bd = g, !.stage = 1]
 Spec == Init /\ [][Next]_vars
 
 \*  MustWithinMay          the property level is consistent
@@ -135,7 +139,7 @@ CaseOK ==
       v == Verdict(c, must, may, a0, aF)
   IN /\ v = "ok" \/ ~PrintT(<<"SPEC-INCONSISTENT", v>>)
      /\ Emit => PrintT(<<"CASE", ToJson(
-          [pkgs |-> StrSet(c.pkgs), dir |-> Str(c.dir), bl |-> StrSet(c.bl), ex |-> StrSet(c.ex),
+          [pkgs |-> StrSet(c.pkgs), dir |-> Str(c.dir), bl |-> StrSet(c.bl), ex |-> StrSet(c.ex), bd |-> StrSet(c.bd),
            must |-> StrSet(must), opt |-> StrSet(may \ must), algo |-> StrSet(a0),
            \* departures of the model as it stands and of the model with no flaw repaired (so that a
            \* regression of a fixed flaw is reported under that flaw's own signature)
